@@ -240,4 +240,6 @@ class Type:
         if self.kind == "list":
             return [item.asdtype() for item in self.param]
         assert self.kind != "array"  # not impl
+        if self.kind == "boolean":
+            return numpy.bool_
         return getattr(numpy, str(self), None)
